@@ -173,6 +173,35 @@ def run(ck: Check):
         ck.sample({"child": "exit 77, files", "status": [getattr(getattr(x[1], "status", None), "name", "?")
                                                          for x in results if x[0]["name"] == "exit77"][0]})
 
+        # output sizes around large powers of two (capture caps, buffer limits): every byte is captured, whatever the size.
+        # One child at a time (each holds its output in memory once)
+        import hashlib
+        bigsrc = ("import sys,os\nn=int(sys.argv[2]); s=(sys.stdout if sys.argv[1]=='out' else sys.stderr).buffer\n"
+                  "blk=bytes(range(256))*4096\nwhile n>0:\n    s.write(blk[:n]); n-=len(blk)\ns.flush(); os._exit(0)\n")
+        sizes_big = [(1 << 24) + 1, 1 << 26, (1 << 26) + 1] if quick else [(1 << k) + d for k in range(20, 28) for d in (-1, 0, 1)]
+        for nbytes in sizes_big:
+            for stream in ("out", "err"):
+                for use_files in ((False,) if quick else (False, True)):
+                    prefix = os.path.join(work, "big") if use_files else None
+                    try:
+                        rd = timed_run([PY, "-c", bigsrc, stream, str(nbytes)], 120, prefix)
+                        if use_files:
+                            with open(rd.out if stream == "out" else rd.err, "rb") as f:
+                                got = f.read()
+                        else:
+                            got = rd.out if stream == "out" else rd.err
+                        blk = bytes(range(256)) * 4096
+                        want_hash = hashlib.sha256((blk * (nbytes // len(blk) + 1))[:nbytes]).hexdigest()
+                        ok = len(got) == nbytes and hashlib.sha256(got).hexdigest() == want_hash and rd.status.name == "NORMAL"
+                        what = f"captured {len(got)} bytes, status {rd.status.name}"
+                        del got
+                    except BaseException as exc:  # pylint: disable=broad-except
+                        ok, what = False, "raised " + type(exc).__name__
+                    ck.count("child")
+                    ck.nontrivial(("big-output", nbytes, stream, use_files))
+                    if not ok:
+                        ck.violation(f"timed_run on a child writing {nbytes} bytes to std{stream} and exiting 0 (files={use_files}): {what}",
+                                     {"bytes": nbytes, "stream": stream, "files": use_files})
         # re-use of a log prefix (as `repeat` does): the files must hold exactly the new output
         reuse = os.path.join(work, "reuse")
         for n1, n2 in ((200000, 10), (10, 5000), (5000, 0), (7, 7)):
